@@ -521,6 +521,9 @@ func extraC07(col *Collector, r *RNG, tier string) {
 	for i := 0; i < n; i++ {
 		id := []uint32{1, 1<<31 - 1, 1 << 31, 1<<32 - 1, uint32(r.U64())}[i%5]
 		name := randName(r, []int{1, 2, 17, 254, 255, r.Range(1, 255)}[i%6])
+		if i%3 == 1 {
+			name = oddFileName(r, i/3)
+		}
 		off := []int64{4, 1<<32 - 1, 1 << 31, int64(4 + r.Intn(1<<20))}[i%4]
 		h := &hist{cfg: "000", ext: map[string][]string{}, tables: []*hTable{{id: 1, db: "d", name: "t", cols: []hCol{{typ: 3, name: "a"}}}}}
 		mp := &tblMapper{tables: h.tables}
@@ -567,6 +570,9 @@ func extraC07(col *Collector, r *RNG, tier string) {
 			}
 			if r.Chance(1, 3) { // the user moves the position between attempts
 				name = randName(r, r.Range(1, 255))
+				if r.Bool() {
+					name = oddFileName(r, r.Intn(64))
+				}
 				off = int64(4 + r.Intn(1<<30))
 				s.SetBinlogPosition(gobinlog.Position{Filename: name, Offset: off})
 				expFile, expOff = name, off
@@ -754,4 +760,43 @@ func extraC08(col *Collector, r *RNG, tier string) {
 			}
 		}
 	}
+}
+
+// oddFileName: "all binlog file names" — the name is opaque bytes to the replica: the empty name (MySQL's "first
+// binlog"), path-like names (a replica must not normalise them), dots, blanks, NUL, quotes, non-UTF-8 bytes.
+func oddFileName(r *RNG, k int) string {
+	base := "mysql-bin." + fmt.Sprintf("%06d", r.Intn(1000000))
+	switch k % 16 {
+	case 0:
+		return ""
+	case 1:
+		return "./" + base
+	case 2:
+		return "relay/" + base
+	case 3:
+		return base + "/"
+	case 4:
+		return "/var/lib/mysql/" + base
+	case 5:
+		return "..\\" + base
+	case 6:
+		return "."
+	case 7:
+		return ".."
+	case 8:
+		return " " + base + " "
+	case 9:
+		return base + "\x00tail"
+	case 10:
+		return "'" + base + "\""
+	case 11:
+		return string([]byte{0xff, 0xfe, 0x80}) + base
+	case 12:
+		return "a//b/../" + base
+	case 13:
+		return "C:\\binlog\\" + base
+	case 14:
+		return string(r.Bytes(r.Range(1, 40)))
+	}
+	return base + "." + randName(r, 3)
 }
